@@ -13,6 +13,7 @@ import (
 	"fmt"
 	"os"
 	"reflect"
+	"runtime"
 	"strings"
 	"time"
 
@@ -87,6 +88,9 @@ func sType(shape []sField) reflect.Type {
 		case "dash":
 			sf.Type = tInt
 			sf.Tag = `dials:"-"`
+		case "dashref":
+			sf.Type = tMap
+			sf.Tag = `dials:"-"`
 		case "chan":
 			sf.Type = tChan
 		case "func":
@@ -142,7 +146,7 @@ func sLeaf(kind string, id, idx int) reflect.Value {
 			}
 			*p = n
 			return reflect.ValueOf(p)
-		case "map":
+		case "map", "dashref":
 			m, ok := arenaMaps[k]
 			if !ok {
 				m = map[string]int{}
@@ -174,7 +178,7 @@ func sLeaf(kind string, id, idx int) reflect.Value {
 		return reflect.ValueOf(time.Unix(int64(1000000+n), 0).UTC())
 	case "slice":
 		return reflect.ValueOf([]int{n, n + 1})
-	case "map":
+	case "map", "dashref":
 		return reflect.ValueOf(map[string]int{fmt.Sprintf("k%d", n): n})
 	case "arr":
 		return reflect.ValueOf([2]int{n, -n})
@@ -228,7 +232,7 @@ func (c *sCtx) fillBase(shape []sField, vals []sVal, out reflect.Value, path str
 			case "id":
 				fld.Set(sLeaf(f.K, v.V, idx))
 			case "keep":
-				if f.K == "dash" {
+				if f.K == "dash" || f.K == "dashref" {
 					fld.Set(sLeaf(f.K, 0, idx))
 				}
 			case "empty":
@@ -249,7 +253,7 @@ func (c *sCtx) fillLayer(shape []sField, vals []sVal, out reflect.Value) {
 		c.leaf++
 		idx := c.leaf
 		switch f.K {
-		case "dash", "chan", "func", "unexp":
+		case "dash", "dashref", "chan", "func", "unexp":
 			c.skipCount(f)
 			continue
 		}
@@ -482,6 +486,8 @@ func runStackCase(c sCase) (mis []sMis) {
 		reach(l, inputs, fmt.Sprintf("layer%d", i+1))
 	}
 	var prev map[uintptr]string
+	var alive []interface{} // address sets are only meaningful while the objects they were taken from are reachable
+	defer func() { runtime.KeepAlive(alive) }()
 	// the full stack first, then every shorter prefix with the same defaults object (re-stacking history)
 	for n := len(layers); n >= 0; n-- {
 		prefix = n
@@ -490,6 +496,7 @@ func runStackCase(c sCase) (mis []sMis) {
 			mis = append(mis, sMis{"C01", n, "compose failed: " + err.Error()})
 			continue
 		}
+		alive = append(alive, res)
 		rv := reflect.ValueOf(res)
 		var diffs []string
 		ctx.leaf = 0
@@ -512,6 +519,7 @@ func runStackCase(c sCase) (mis []sMis) {
 			// same inputs stacked twice: deeply equal, disjoint
 			res2, err2 := dials.VerifCompose(defPtr.Interface(), layers[:n])
 			if err2 == nil {
+				alive = append(alive, res2)
 				if !reflect.DeepEqual(stripFuncs(res), stripFuncs(res2)) {
 					mis = append(mis, sMis{"C02", n, "stacking the same inputs twice gave different results"})
 				}
